@@ -8,7 +8,9 @@
 //   kinds   one letter per port in the same (pre)order:
 //             R rRecur(sub)  P rRecurp(subp)  A rRecurs(arr,12)  M sub-tree "sub" with a multi-component
 //             name (harness callback that strips as many components as the name has)
-//             X rRecur(sub)'s callback paired with a multi-component name (observation: SNIP strips one component)
+//             X rRecur(sub)'s  Y rRecurp(subp)'s  Z rRecurs(arr,12)'s callback paired with a multi-component name
+//               (a/b/, a/b#3/c/; Z: exactly one '#'): since the commit "fix: the recursion callbacks skipped one
+//               component ..." SNIP skips as many components as the name has
 //             T toggle en0  U toggle en1  V rParamI(val)  S rSelf  L plain leaf
 //   case    walk <tree> <kinds> <hexbuf> <rt 0|1> <nulls> <dis> <selfoff> <off>
 //             hexbuf  initial content of the name buffer (a string)
@@ -145,7 +147,9 @@ struct Built {
                     case 'R': cb = T.ports[0].cb; break;
                     case 'X': cb = T.ports[0].cb; break;   // rRecurCb(sub) under a multi-component name
                     case 'P': cb = T.ports[2].cb; break;
+                    case 'Y': cb = T.ports[2].cb; break;   // rRecurpCb(subp) under a multi-component name
                     case 'A': cb = T.ports[3].cb; break;
+                    case 'Z': cb = T.ports[3].cb; break;   // rRecursCb(arr,12) under a multi-component name
                     case 'M': cb = lv == 0 ? (cb_t)multi_cb<N0, N1>
                                : lv == 1 ? (cb_t)multi_cb<N1, N2> : (cb_t)multi_cb<N2, N3>; break;
                     default: err = "kind"; return;
@@ -251,8 +255,9 @@ static void *object_at(N0 &root, const std::string &a, int &level)
             std::string nm = q.name;
             if(!Resolver::name_step(q.name, a, p2, idx)) continue;
             char kind = kind_of[q.name];
-#define STEP(NN) { NN *o = (NN *)obj; obj = kind == 'R' ? (void *)&o->sub : kind == 'P' ? (void *)o->subp \
-                                        : kind == 'A' ? (void *)&o->arr[idx] \
+#define STEP(NN) { NN *o = (NN *)obj; obj = (kind == 'R' || kind == 'X') ? (void *)&o->sub \
+                                        : (kind == 'P' || kind == 'Y') ? (void *)o->subp \
+                                        : (kind == 'A' || kind == 'Z') ? (void *)&o->arr[idx] \
                                         : strchr(q.name, '#') ? (void *)&o->arr[idx] : (void *)&o->sub; }
             if(level == 0) STEP(N0) else if(level == 1) STEP(N1) else STEP(N2)
             pos = p2; level++; ok = true;
@@ -342,12 +347,23 @@ int main()
         // runtime state: NULL pointers first (object_at needs the others), then toggles
         for(auto &h : split(f[5] == "-" ? "" : f[5], ';')) {
             std::string a = cstr_of(h);
-            // the sub-tree at address a is reached through a P port: its parent is a minus the last component
-            size_t cut = a.size() - 1;
-            while(cut > 0 && a[cut - 1] != '/') --cut;
-            // multi-component P names do not occur (P names come from the macro shape)
+            // the sub-tree at address a is reached through a P / Y port of its parent table: the parent's
+            // address is a minus the components of that port's name (one for P, several for Y)
             int lv = 0;
-            void *par = object_at(root, a.substr(0, cut), lv);
+            void *par = nullptr;
+            for(size_t cut = a.size() - 1; cut > 0 && !par; --cut) {
+                if(a[cut - 1] != '/') continue;
+                int l2 = 0;
+                void *o = object_at(root, a.substr(0, cut), l2);
+                if(!o || l2 > 2) continue;
+                for(const Port &q : levels[l2].tab->ports) {
+                    char kd = kind_of[q.name];
+                    size_t p2 = cut; int idx = 0;
+                    if(q.ports && (kd == 'P' || kd == 'Y') && name_step(q.name, a, p2, idx) && p2 == a.size()) {
+                        par = o; lv = l2; break;
+                    }
+                }
+            }
             if(!par) continue;
             if(lv == 0) ((N0 *)par)->subp = nullptr; else if(lv == 1) ((N1 *)par)->subp = nullptr; else if(lv == 2) ((N2 *)par)->subp = nullptr;
         }
